@@ -488,9 +488,7 @@ async fn client<S: AsyncRead + AsyncWrite + Unpin>(
     let mut pos = 0;
     let mut ci = 0;
     while pos < p.len() {
-        let mut w = usize::MAX;
         let n = lim(&app.wchunks, &mut ci).min(p.len() - pos);
-        let _ = &mut w;
         step!(out, STEP_WRITE, s.write_all(&p[pos..pos + n]).await.map(|_| n), count);
         pos += n;
         if app.flush_each || app.lockstep {
@@ -615,8 +613,6 @@ fn dec_cfg(c: &mut Case) -> Result<EndCfg, BadCase> {
     Ok(EndCfg { buffered, cap, rlim, wlim, pend })
 }
 
-const LOG_CAP: usize = 1500;
-
 fn run_tls(c: &mut Case) -> Result<Vec<u64>, BadCase> {
     let backend = c.take()?;
     let wrap = c.take()?;
@@ -683,23 +679,576 @@ fn run_tls(c: &mut Case) -> Result<Vec<u64>, BadCase> {
         ]);
     }
     res.push(watch.calls.get());
+    push_log(&mut res, &log);
+    Ok(res)
+}
+
+const LOG_HEAD: usize = 1200;
+const LOG_TAIL: usize = 300;
+
+/// `[total; n_head; head events..; n_tail; tail events..]` (5 integers per event;
+/// the tail is empty when the whole log fits into the head)
+fn push_log(res: &mut Vec<u64>, log: &[verif::Event]) {
     res.push(log.len() as u64);
-    let n = log.len().min(LOG_CAP);
+    let n = log.len().min(LOG_HEAD);
     res.push(n as u64);
     for ev in &log[..n] {
         res.extend([ev.tag, ev.kind as u64, ev.a, ev.b, ev.c]);
     }
-    Ok(res)
+    let rest = &log[n..];
+    let t = rest.len().min(LOG_TAIL);
+    res.push(t as u64);
+    for ev in &rest[rest.len() - t..] {
+        res.extend([ev.tag, ev.kind as u64, ev.a, ev.b, ev.c]);
+    }
 }
 
 fn run(case: &[u64]) -> Result<Vec<u64>, BadCase> {
     let mut c = Case::new(case);
     match c.take()? {
         1 => run_tls(&mut c),
+        2 => ws::run_ws(&mut c),
+        3 => eager::run_eager(&mut c),
         _ => Err(BadCase),
     }
 }
 
 fn main() {
     main_loop(run);
+}
+
+
+// ---------------------------------------------------------------------------
+// kind 3: a transport that is always ready (the peer runs on another thread and
+// the transport waits for it inside poll_read), holding writes back until
+// flushed.  The handshake then completes within the first poll.
+
+mod eager {
+    use std::{
+        io::{Read, Write},
+        sync::{Condvar, Mutex},
+        time::Duration,
+    };
+
+    use super::*;
+
+    #[derive(Default)]
+    struct Chan {
+        q: Mutex<(VecDeque<u8>, bool)>,
+        cv: Condvar,
+    }
+
+    impl Chan {
+        fn push(&self, b: &[u8]) {
+            self.q.lock().unwrap().0.extend(b.iter().copied());
+            self.cv.notify_all();
+        }
+
+        fn close(&self) {
+            self.q.lock().unwrap().1 = true;
+            self.cv.notify_all();
+        }
+
+        /// blocks until data, end of stream or the deadline
+        fn pop(&self, dst: &mut [u8], wait: Duration) -> io::Result<usize> {
+            let mut g = self.q.lock().unwrap();
+            let deadline = std::time::Instant::now() + wait;
+            while g.0.is_empty() && !g.1 {
+                let now = std::time::Instant::now();
+                if now >= deadline {
+                    return Err(io::Error::from(io::ErrorKind::TimedOut));
+                }
+                g = self.cv.wait_timeout(g, deadline - now).unwrap().0;
+            }
+            let n = dst.len().min(g.0.len());
+            for d in dst.iter_mut().take(n) {
+                *d = g.0.pop_front().unwrap();
+            }
+            Ok(n)
+        }
+    }
+
+    /// the peer's blocking stream
+    struct Blocking {
+        inc: Arc<Chan>,
+        out: Arc<Chan>,
+    }
+
+    impl Read for Blocking {
+        fn read(&mut self, buf: &mut [u8]) -> io::Result<usize> {
+            self.inc.pop(buf, Duration::from_millis(1500))
+        }
+    }
+
+    impl Write for Blocking {
+        fn write(&mut self, buf: &[u8]) -> io::Result<usize> {
+            self.out.push(buf);
+            Ok(buf.len())
+        }
+
+        fn flush(&mut self) -> io::Result<()> {
+            Ok(())
+        }
+    }
+
+    /// compio-tls' side: never Pending, holds writes back until flushed
+    struct Eager {
+        inc: Arc<Chan>,
+        out: Arc<Chan>,
+        stage: Rc<RefCell<Vec<u8>>>,
+    }
+
+    impl AsyncRead for Eager {
+        fn poll_read(self: Pin<&mut Self>, _: &mut Context<'_>, buf: &mut [u8]) -> Poll<io::Result<usize>> {
+            let r = self.inc.pop(buf, Duration::from_millis(1500));
+            verif::emit(T_READ, buf.len() as u64, if r.is_ok() { R_OK } else { R_ERR }, *r.as_ref().unwrap_or(&0) as u64);
+            Poll::Ready(r)
+        }
+    }
+
+    impl AsyncWrite for Eager {
+        fn poll_write(self: Pin<&mut Self>, _: &mut Context<'_>, buf: &[u8]) -> Poll<io::Result<usize>> {
+            self.stage.borrow_mut().extend_from_slice(buf);
+            verif::emit(T_WRITE, buf.len() as u64, R_OK, buf.len() as u64);
+            Poll::Ready(Ok(buf.len()))
+        }
+
+        fn poll_flush(self: Pin<&mut Self>, _: &mut Context<'_>) -> Poll<io::Result<()>> {
+            let mut st = self.stage.borrow_mut();
+            self.out.push(&st);
+            st.clear();
+            verif::emit(T_FLUSH, 0, R_OK, 0);
+            Poll::Ready(Ok(()))
+        }
+
+        fn poll_close(self: Pin<&mut Self>, cx: &mut Context<'_>) -> Poll<io::Result<()>> {
+            let r = self.as_ref().get_ref().stage.borrow().is_empty();
+            let _ = r;
+            let p = AsyncWrite::poll_flush(self, cx);
+            verif::emit(T_CLOSE, 0, R_OK, 0);
+            p
+        }
+    }
+
+    /// `3 role len`: role 0 = compio-tls is the client.  The application writes
+    /// `len` bytes, flushes, closes and never reads.
+    /// Result: `0 verdict hs_ok write_ok flush_ok held_after_flush close_ok held_after_close
+    ///          peer_hs_ok peer_got peer_data_ok peer_eof log..`
+    pub fn run_eager(c: &mut Case) -> Result<Vec<u64>, BadCase> {
+        let role = c.take()?;
+        let len = c.take()? as usize;
+        if role > 1 || len > 4096 {
+            return Err(BadCase);
+        }
+        let data = payload(9, len);
+        let a = Arc::new(Chan::default()); // compio side -> peer
+        let b = Arc::new(Chan::default()); // peer -> compio side
+        let cert = certs();
+        let peer_io = Blocking { inc: a.clone(), out: b.clone() };
+        let expect = data.clone();
+        let peer = std::thread::spawn(move || -> (u64, u64, u64, u64) {
+            use compio_tls::native_tls;
+            let hs = if role == 0 {
+                let id = native_tls::Identity::from_pkcs8(cert.cert_pem.as_bytes(), cert.key_pem.as_bytes()).unwrap();
+                native_tls::TlsAcceptor::builder(id).build().unwrap().accept(peer_io).map_err(|_| ())
+            } else {
+                native_tls::TlsConnector::builder()
+                    .add_root_certificate(native_tls::Certificate::from_pem(cert.cert_pem.as_bytes()).unwrap())
+                    .build()
+                    .unwrap()
+                    .connect("localhost", peer_io)
+                    .map_err(|e| {
+                        if std::env::var("C15_DEBUG").is_ok() {
+                            eprintln!("peer connect: {e:?}");
+                        }
+                    })
+            };
+            let Ok(mut s) = hs else { return (0, 0, 0, 0) };
+            let mut got = Vec::new();
+            let mut buf = [0u8; 512];
+            let mut eof = 0;
+            loop {
+                match s.read(&mut buf) {
+                    Ok(0) => {
+                        eof = 1;
+                        break;
+                    }
+                    Ok(n) => got.extend_from_slice(&buf[..n]),
+                    Err(_) => break,
+                }
+            }
+            (1, got.len() as u64, (got == expect) as u64, eof)
+        });
+
+        let stage = Rc::new(RefCell::new(Vec::new()));
+        let io = Eager { inc: b.clone(), out: a.clone(), stage: stage.clone() };
+        let (con, acc) = native_pair();
+        let rt = compio_runtime::Runtime::new().unwrap();
+        verif::start();
+        verif::set_tag(1);
+        let st = stage.clone();
+        let r: [u64; 6] = rt.block_on(async move {
+            let hs = if role == 0 { con.connect("localhost", io).await } else { acc.accept(io).await };
+            let Ok(mut s) = hs else { return [0; 6] };
+            let w = s.write_all(&data).await.is_ok();
+            let f = s.flush().await.is_ok();
+            let held_f = st.borrow().len() as u64;
+            let cl = s.close().await.is_ok();
+            let held_c = st.borrow().len() as u64;
+            [1, w as u64, f as u64, held_f, cl as u64, held_c]
+        });
+        verif::set_tag(0);
+        let log = verif::take();
+        a.close();
+        let p = peer.join().unwrap_or((0, 0, 0, 0));
+        let mut res = vec![0u64, 0];
+        res.extend(r);
+        res.extend([p.0, p.1, p.2, p.3]);
+        push_log(&mut res, &log);
+        Ok(res)
+    }
+}
+
+// ---------------------------------------------------------------------------
+// kind 2: compio-ws over Unix socket pairs with a fragmenting, delaying relay
+
+mod ws {
+    use std::time::{Duration, Instant};
+
+    use compio_runtime::fd::PollFd;
+    use compio_ws::{WebSocketStream, tungstenite::Message};
+    use socket2::{Domain, Socket, Type};
+
+    use super::*;
+
+    struct Relay {
+        rlim: Vec<usize>,
+        delays: Vec<usize>,
+    }
+
+    struct Yield(usize);
+
+    impl Future for Yield {
+        type Output = ();
+
+        fn poll(mut self: Pin<&mut Self>, cx: &mut Context<'_>) -> Poll<()> {
+            if self.0 == 0 {
+                return Poll::Ready(());
+            }
+            self.0 -= 1;
+            cx.waker().wake_by_ref();
+            Poll::Pending
+        }
+    }
+
+    async fn pump(from: Rc<PollFd<Socket>>, to: Rc<PollFd<Socket>>, cfg: Relay, moved: Rc<Cell<u64>>) {
+        let mut buf = vec![0u8; 1 << 16];
+        let (mut ri, mut di) = (0, 0);
+        loop {
+            let want = lim(&cfg.rlim, &mut ri).min(buf.len());
+            let n = match (&*from).read(&mut buf[..want]).await {
+                Ok(0) | Err(_) => break,
+                Ok(n) => n,
+            };
+            if !cfg.delays.is_empty() {
+                Yield(cfg.delays[di % cfg.delays.len()]).await;
+                di += 1;
+            }
+            if (&*to).write_all(&buf[..n]).await.is_err() {
+                break;
+            }
+            moved.set(moved.get() + n as u64);
+        }
+        let _ = (&*to).close().await;
+    }
+
+    fn dec_relay(c: &mut Case) -> Result<Relay, BadCase> {
+        let nr = c.take()? as usize;
+        let rlim = c.take_n(nr)?.iter().map(|&x| x as usize).collect();
+        let nd = c.take()? as usize;
+        let delays = c.take_n(nd)?.iter().map(|&x| (x as usize).min(50)).collect();
+        Ok(Relay { rlim, delays })
+    }
+
+    fn pair(sndbuf: usize) -> (PollFd<Socket>, PollFd<Socket>) {
+        let (a, b) = Socket::pair(Domain::UNIX, Type::STREAM, None).unwrap();
+        for s in [&a, &b] {
+            s.set_nonblocking(true).unwrap();
+            if sndbuf > 0 {
+                let _ = s.set_send_buffer_size(sndbuf);
+                let _ = s.set_recv_buffer_size(sndbuf);
+            }
+        }
+        (PollFd::new(a).unwrap(), PollFd::new(b).unwrap())
+    }
+
+    fn mk_msg(kind: u64, len: usize, seed: u64) -> Message {
+        let bytes = payload(seed, len);
+        match kind {
+            0 => Message::Text(bytes.iter().map(|b| (b'a' + b % 26) as char).collect::<String>().into()),
+            1 => Message::Binary(bytes.into()),
+            _ => Message::Ping(bytes[..len.min(125)].to_vec().into()),
+        }
+    }
+
+    #[derive(Default)]
+    struct WsOut {
+        done: bool,
+        hs_ok: bool,
+        n_ok: u64,      // replies that matched (client) / messages echoed (server)
+        close_ok: bool, // the closing handshake was seen to the end
+        err_step: u64,
+        steps: u64,
+    }
+
+    type Ws = WebSocketStream<Socket>;
+
+    async fn ws_client(mut ws: Ws, msgs: Vec<Message>, mode: u64, out: Rc<RefCell<WsOut>>, gate: Rc<Cell<u64>>) {
+        let expect = |m: &Message| match m {
+            Message::Ping(p) => Message::Pong(p.clone()),
+            other => other.clone(),
+        };
+        macro_rules! bail {
+            ($step:expr) => {{
+                let mut o = out.borrow_mut();
+                o.err_step = $step;
+                o.done = true;
+                return;
+            }};
+        }
+        let mut pending: VecDeque<Message> = VecDeque::new();
+        for m in &msgs {
+            if ws.send(m.clone()).await.is_err() {
+                bail!(2);
+            }
+            out.borrow_mut().steps += 1;
+            pending.push_back(expect(m));
+            if mode != 1 {
+                let want = pending.pop_front().unwrap();
+                match ws.read().await {
+                    Ok(r) if r == want => {
+                        let mut o = out.borrow_mut();
+                        o.n_ok += 1;
+                        o.steps += 1;
+                    }
+                    _ => bail!(4),
+                }
+                gate.set(gate.get() + 1);
+            }
+        }
+        while let Some(want) = pending.pop_front() {
+            match ws.read().await {
+                Ok(r) if r == want => {
+                    let mut o = out.borrow_mut();
+                    o.n_ok += 1;
+                    o.steps += 1;
+                }
+                _ => bail!(4),
+            }
+        }
+        if ws.close(None).await.is_err() {
+            bail!(5);
+        }
+        out.borrow_mut().steps += 1;
+        // the peer's Close reply, then the end of the stream
+        match ws.read().await {
+            Ok(Message::Close(_)) => {}
+            _ => bail!(6),
+        }
+        match ws.read().await {
+            Err(compio_ws::tungstenite::Error::ConnectionClosed) => {}
+            _ => bail!(7),
+        }
+        let mut o = out.borrow_mut();
+        o.close_ok = true;
+        o.done = true;
+    }
+
+    async fn ws_server(mut ws: Ws, mode: u64, out: Rc<RefCell<WsOut>>, gate: Rc<Cell<u64>>) {
+        let mut seen = 0u64;
+        loop {
+            match ws.read().await {
+                Ok(m @ (Message::Text(_) | Message::Binary(_))) => {
+                    if ws.send(m).await.is_err() {
+                        let mut o = out.borrow_mut();
+                        o.err_step = 2;
+                        o.done = true;
+                        return;
+                    }
+                    let mut o = out.borrow_mut();
+                    o.n_ok += 1;
+                    o.steps += 1;
+                }
+                Ok(Message::Ping(_)) => {
+                    // the Pong was queued by the protocol engine; this side does
+                    // nothing more for it
+                    out.borrow_mut().steps += 1;
+                    if mode == 2 {
+                        // ... and does not touch the stream at all until the
+                        // client has received the Pong
+                        seen += 1;
+                        let g = gate.clone();
+                        let want = seen;
+                        let t0 = Instant::now();
+                        std::future::poll_fn(|cx| {
+                            if g.get() >= want || t0.elapsed() > Duration::from_secs(5) {
+                                Poll::Ready(())
+                            } else {
+                                cx.waker().wake_by_ref();
+                                Poll::Pending
+                            }
+                        })
+                        .await;
+                    }
+                }
+                Ok(Message::Close(_)) => {
+                    out.borrow_mut().steps += 1;
+                }
+                Ok(_) => {}
+                Err(compio_ws::tungstenite::Error::ConnectionClosed) => {
+                    let mut o = out.borrow_mut();
+                    o.close_ok = true;
+                    o.done = true;
+                    return;
+                }
+                Err(_) => {
+                    let mut o = out.borrow_mut();
+                    o.err_step = 4;
+                    o.done = true;
+                    return;
+                }
+            }
+            if mode == 2 {
+                seen = seen.max(gate.get());
+            }
+        }
+    }
+
+    /// `2 tls r_c2s r_s2c sndbuf mode nmsg (kind len)* seed`
+    /// Result: `0 verdict (done hs_ok n_ok close_ok err_step)x2 moved_c2s moved_s2c nmsg`
+    pub fn run_ws(c: &mut Case) -> Result<Vec<u64>, BadCase> {
+        let tls = c.take()?;
+        let r1 = dec_relay(c)?;
+        let r2 = dec_relay(c)?;
+        let sndbuf = c.take()? as usize;
+        let mode = c.take()?;
+        let nmsg = c.take()? as usize;
+        if tls > 2 || mode > 2 || nmsg > 64 {
+            return Err(BadCase);
+        }
+        let mut spec = Vec::new();
+        for _ in 0..nmsg {
+            let k = c.take()?;
+            let l = c.take()? as usize;
+            if k > 2 || l > 1 << 17 {
+                return Err(BadCase);
+            }
+            spec.push((k, l));
+        }
+        let seed = c.take()?;
+        let msgs: Vec<Message> = spec.iter().enumerate().map(|(i, &(k, l))| mk_msg(k, l, seed + i as u64)).collect();
+        let outs = [Rc::new(RefCell::new(WsOut::default())), Rc::new(RefCell::new(WsOut::default()))];
+        let moved = [Rc::new(Cell::new(0u64)), Rc::new(Cell::new(0u64))];
+        let gate = Rc::new(Cell::new(0u64));
+
+        let rt = compio_runtime::Runtime::new().unwrap();
+        let verdict = rt.block_on(async {
+            let (cs, ra) = pair(sndbuf);
+            let (rb, ss) = pair(sndbuf);
+            let (ra, rb) = (Rc::new(ra), Rc::new(rb));
+            compio_runtime::spawn(pump(ra.clone(), rb.clone(), r1, moved[0].clone())).detach();
+            compio_runtime::spawn(pump(rb, ra, r2, moved[1].clone())).detach();
+            let (o0, o1) = (outs[0].clone(), outs[1].clone());
+            let (g0, g1) = (gate.clone(), gate.clone());
+            let pairs = match tls {
+                1 => Some(native_pair()),
+                2 => Some(rustls_pair()),
+                _ => None,
+            };
+            let (con, acc) = match pairs {
+                Some((a, b)) => (Some(a), Some(b)),
+                None => (None, None),
+            };
+            compio_runtime::spawn(async move {
+                let r = match con {
+                    None => compio_ws::client_async("ws://localhost/", cs).await,
+                    Some(con) => match con.connect("localhost", cs).await {
+                        Ok(t) => compio_ws::client_async("ws://localhost/", t).await,
+                        Err(_) => {
+                            let mut o = o0.borrow_mut();
+                            o.err_step = 1;
+                            o.done = true;
+                            return;
+                        }
+                    },
+                };
+                match r {
+                    Ok((ws, _)) => {
+                        o0.borrow_mut().hs_ok = true;
+                        ws_client(ws, msgs, mode, o0, g0).await
+                    }
+                    Err(_) => {
+                        let mut o = o0.borrow_mut();
+                        o.err_step = 1;
+                        o.done = true;
+                    }
+                }
+            })
+            .detach();
+            compio_runtime::spawn(async move {
+                let r = match acc {
+                    None => compio_ws::accept_async(ss).await,
+                    Some(acc) => match acc.accept(ss).await {
+                        Ok(t) => compio_ws::accept_async(t).await,
+                        Err(_) => {
+                            let mut o = o1.borrow_mut();
+                            o.err_step = 1;
+                            o.done = true;
+                            return;
+                        }
+                    },
+                };
+                match r {
+                    Ok(ws) => {
+                        o1.borrow_mut().hs_ok = true;
+                        ws_server(ws, mode, o1, g1).await
+                    }
+                    Err(_) => {
+                        let mut o = o1.borrow_mut();
+                        o.err_step = 1;
+                        o.done = true;
+                    }
+                }
+            })
+            .detach();
+            // watchdog: progress = relayed bytes + application steps
+            let mut last = (0u64, Instant::now());
+            let t0 = Instant::now();
+            std::future::poll_fn(|cx| {
+                if outs.iter().all(|o| o.borrow().done) {
+                    return Poll::Ready(0u64);
+                }
+                let p = moved[0].get() + moved[1].get() + outs[0].borrow().steps + outs[1].borrow().steps;
+                if p != last.0 {
+                    last = (p, Instant::now());
+                } else if last.1.elapsed() > Duration::from_millis(1200) {
+                    return Poll::Ready(3);
+                }
+                if t0.elapsed() > Duration::from_secs(40) {
+                    return Poll::Ready(4);
+                }
+                cx.waker().wake_by_ref();
+                Poll::Pending
+            })
+            .await
+        });
+        drop(rt);
+        let mut res = vec![0u64, verdict];
+        for o in &outs {
+            let o = o.borrow();
+            res.extend([o.done as u64, o.hs_ok as u64, o.n_ok, o.close_ok as u64, o.err_step]);
+        }
+        res.extend([moved[0].get(), moved[1].get(), nmsg as u64]);
+        Ok(res)
+    }
 }
